@@ -33,7 +33,7 @@ m = {
               "source_commits": [], "add_only": True},
     "engines": [
         {"name": "tlc", "path": "/verif/spec", "serves_properties": [c["property_id"] for c in checks],
-         "kind_free_text": "TLA+ specifications (Props.tla ghost + invariants, Omaha.tla design model, Mon.tla trace monitor, function models) checked with TLC"},
+         "kind_free_text": "TLA+ specifications (Props.tla ghost + invariants, Omaha.tla design model, Mon.tla clause monitor over recorded logs, TraceOmaha.tla trace validation of recorded runs against the design model, function models, TimeConvProof.tla with TLAPS) checked with TLC"},
         {"name": "harness", "path": "/verif/harness", "serves_properties": [c["property_id"] for c in checks],
          "kind_free_text": "Rust crate with scripted, logging doubles of all embedder traits driving the real omaha-client through a manual executor; replays TLC/seeded scenarios and records ndjson logs"},
     ],
